@@ -125,4 +125,11 @@ CHECKS = {
          "against longdouble SI sums (1e-9; observed 1e-15). Solution.field_at_position / vector_potential_at_position are checked on real solutions whose site currents are replaced by basis and superposed currents: SI sums, scalar form = z component, "
          "sum = parts, additivity, applied part, with/without units, every positional form. The closed-form loop potential is compared with numerical quadrature at 108 positions incl. the axis, in-plane and far field; H<->B conversions for 4 unit pairs x 3 input forms x registry given/not given must round trip and equal B/mu0."),
    note="points in the film plane and loop positions within 1e-2 R of the axis (other than the axis) are outside the alphabet; current distributions other than the basis rest on linearity (spot-checked by superpositions)"),
+ "C07": dict(
+   engine="mc-core", category="exploration", design_ref="DESIGN.md 3/C07",
+   technique="exhaustive product of geometries and mesh settings; every triangle, edge and site of every generated mesh checked against shapely and against an independent clipped-Voronoi construction under oracle-side Delaunay/encroachment guards",
+   text=("For every (film, holes, terminals, max_edge_length, min_points, smoothing, xi) of the product the real mesher is run and: signed triangle areas are positive and sum to the domain area (1e-9), centroids lie in the domain, the edge list is exactly the set of triangle sides, "
+         "boundary edges/sites are those with incidence 1, lie on the outline and add up to the perimeter, V-E+T = 1-holes, edge vectors/lengths/centres match the site pairs; for every site/edge whose incident triangles are Delaunay with circumcentres inside the domain "
+         "(98% of sites) the cell area / dual length equals the clipped Voronoi cell area / face length computed by half-plane clipping with shapely (1e-9; observed 6e-13); terminal lengths match the covered outline to within two boundary edges."),
+   note="geometries limited to the primitive alphabet; meshes the library itself refuses ('Malformed Voronoi cell') are counted as refused; non-Delaunay regions (heavy smoothing) are outside the statement and only counted"),
 }
